@@ -190,13 +190,14 @@ func runC08(c *eng.Ctx, tier string) {
 		var code int64
 		var blk *ssa.BasicBlock
 		found := false
-		eng.Instrs(sj, func(in ssa.Instruction) {
+		// (the table may live in a helper serveJSON hands the error to)
+		eng.InstrsDeep(sj, func(_ *ssa.Function, in ssa.Instruction) {
 			ifi, ok := in.(*ssa.If)
 			if !ok {
 				return
 			}
 			call, _, _, isCall := eng.CondOf(ifi.Cond, true).BoolCall()
-			if !isCall || !eng.CalleeIs(&call.Call, "errors", "Is") || !eng.Same(call.Call.Args[0], ferr) || !eng.IsGlobalLoad(call.Call.Args[1], pkgrel, name) {
+			if !isCall || !eng.CalleeIs(&call.Call, "errors", "Is") || !eng.SameX(call.Call.Args[0], ferr) || !eng.IsGlobalLoad(call.Call.Args[1], pkgrel, name) {
 				return
 			}
 			blk = ifi.Block().Succs[0]
@@ -217,7 +218,7 @@ func runC08(c *eng.Ctx, tier string) {
 		c.Check(found && code == row.want, "R-C08-4", sj, sj.Pos(), "status for "+row.name, itoa(int(row.want)), "found "+itoa(int(code)))
 		if found && row.want == 304 && blk != nil {
 			// no body write on that path
-			hit, _ := eng.SearchBlock(sj, blk, nil, nil, func(x ssa.Instruction) bool {
+			hit, _ := eng.SearchBlock(blk.Parent(), blk, nil, nil, func(x ssa.Instruction) bool {
 				if ec, ok := x.(*ssa.Call); ok && ec.Call.IsInvoke() && ec.Call.Method.Name() == "Write" {
 					return true
 				}
@@ -230,7 +231,7 @@ func runC08(c *eng.Ctx, tier string) {
 		}
 	}
 	// other errors: the remaining err != nil edge answers with a constant 4xx/5xx via http.Error (checked above) and returns
-	hitBad, pathBad := eng.Search(sj, fnCall, eng.AssumeErr(ferr, false), nil, func(x ssa.Instruction) bool {
+	hitBad, pathBad := eng.SearchX(sj, fnCall, eng.AssumeErr(ferr, false), nil, func(x ssa.Instruction) bool {
 		if ec, ok := x.(*ssa.Call); ok && ec.Call.IsInvoke() {
 			if ec.Call.Method.Name() == "Write" {
 				return true
@@ -329,31 +330,79 @@ func c08Routes(c *eng.Ctx, sj, getIdentity *ssa.Function) {
 		if !ok || !(eng.CalleeIs(&call.Call, "net/http", "*ServeMux.HandleFunc") || eng.CalleeIs(&call.Call, "net/http", "*ServeMux.Handle")) {
 			return
 		}
-		pat, isC := eng.ConstString(call.Call.Args[1])
-		if !isC || !strings.HasPrefix(pat, "/api/") {
-			return
+		// the (pattern, handler) pairs registered by this call: its constant
+		// arguments, or the rows of a route table it is applied to in a loop
+		type route struct {
+			pat string
+			h   ssa.Value
 		}
-		n++
-		var h *ssa.Function
-		if mc, isMC := eng.Origin(call.Call.Args[2]).(*ssa.MakeClosure); isMC {
-			h = eng.Unwrap(mc.Fn.(*ssa.Function))
-		}
-		if h == nil {
-			c.Bad("R-C08-2", newFn, in.Pos(), "handler for "+pat, "a method of Server whose body is one serveJSON call", "not a bound method")
-			return
-		}
-		// body: exactly one call, to serveJSON (instantiation), plus the literal
-		calls := 0
-		sjCalls := 0
-		eng.Instrs(h, func(x ssa.Instruction) {
-			if ci, ok := x.(ssa.CallInstruction); ok {
-				calls++
-				if cal := eng.Callee(ci.Common()); cal != nil && cal.Origin() == sj {
-					sjCalls++
+		var routes []route
+		if pat, isC := eng.ConstString(call.Call.Args[1]); isC {
+			routes = append(routes, route{pat, call.Call.Args[2]})
+		} else {
+			for _, rl := range eng.RangeLoops(call.Parent()) {
+				if !rl.InLoop(call.Block()) {
+					continue
+				}
+				rows, okT := eng.StructTable(rl.Slice)
+				if !okT {
+					continue
+				}
+				fieldOf := func(v ssa.Value) int {
+					// rt.field of the loop element (a per-iteration copy or the element itself)
+					o := eng.Origin(v)
+					if u, isU := o.(*ssa.UnOp); isU {
+						if fa, isFA := u.X.(*ssa.FieldAddr); isFA && (rl.ElemOf(fa.X) || rl.ElemOf(eng.Origin(fa.X))) {
+							return fa.Field
+						}
+					}
+					if fv, isF := o.(*ssa.Field); isF && rl.ElemOf(fv.X) {
+						return fv.Field
+					}
+					return -1
+				}
+				pi, hi := fieldOf(call.Call.Args[1]), fieldOf(call.Call.Args[2])
+				if pi < 0 || hi < 0 {
+					continue
+				}
+				for _, row := range rows {
+					if ps, isC := eng.ConstString(row[pi]); isC {
+						routes = append(routes, route{ps, row[hi]})
+					}
 				}
 			}
-		})
-		c.Check(calls == 1 && sjCalls == 1, "R-C08-2", h, h.Pos(), "handler registered for "+pat+": "+eng.FName(h), "its body is a single serveJSON call (every API request passes the five gates)", itoa(calls)+" calls, "+itoa(sjCalls)+" to serveJSON")
+		}
+		for _, rt := range routes {
+			pat := rt.pat
+			if !strings.HasPrefix(pat, "/api/") {
+				continue
+			}
+			n++
+			var h *ssa.Function
+			hv := eng.Origin(rt.h)
+			if ct, isCT := hv.(*ssa.ChangeType); isCT {
+				hv = eng.Origin(ct.X) // http.HandlerFunc(s.get)
+			}
+			if mc, isMC := hv.(*ssa.MakeClosure); isMC {
+				h = eng.Unwrap(mc.Fn.(*ssa.Function))
+			}
+			if h == nil {
+				c.Bad("R-C08-2", newFn, in.Pos(), "handler for "+pat, "a method of Server whose body is one serveJSON call", "not a bound method")
+				continue
+			}
+			// body: exactly one call, to serveJSON (instantiation), plus the literal
+			calls := 0
+			sjCalls := 0
+			eng.Instrs(h, func(x ssa.Instruction) {
+				if ci, ok := x.(ssa.CallInstruction); ok {
+					calls++
+					if cal := eng.Callee(ci.Common()); cal != nil && cal.Origin() == sj {
+						sjCalls++
+					}
+				}
+			})
+			c.Check(calls == 1 && sjCalls == 1, "R-C08-2", h, h.Pos(), "handler registered for "+pat+": "+eng.FName(h), "its body is a single serveJSON call (every API request passes the five gates)", itoa(calls)+" calls, "+itoa(sjCalls)+" to serveJSON")
+		}
 	})
 	c.Check(n >= 7, "R-C08-2", newFn, newFn.Pos(), "API handlers registered", "the seven documented endpoints", itoa(n)+" found")
 	// who-may-call on db.DB outside package db
